@@ -58,7 +58,9 @@ func (fc *Client) VerifTransports() map[string]time.Time {
 	defer dt.transportsMutex.Unlock()
 	out := map[string]time.Time{}
 	for k, t := range dt.transports {
-		out[k] = t.lastUsed.Load().(time.Time)
+		// a transport that is visible before its last-used stamp is set
+		// reports the zero time (the reaper would trip over it)
+		out[k], _ = t.lastUsed.Load().(time.Time)
 	}
 	return out
 }
@@ -83,4 +85,10 @@ func (fc *Client) VerifCloseIdle() {
 // VerifAllowDenyControl exposes the dialer control function.
 func VerifAllowDenyControl(allow, deny []string) func(ctx context.Context, network, address string, conn syscall.RawConn) error {
 	return allowDenyNetworksControl(allow, deny)
+}
+
+// VerifTripperTimes reports how long the transport cache keeps an unused
+// transport and how often its reaper looks (the oracle restates neither).
+func VerifTripperTimes() (lifetime, reapInterval time.Duration) {
+	return destinationTripperLifetime, destinationTripperReapInterval
 }
